@@ -54,7 +54,9 @@ type byValueClient struct {
 	tags map[string]int
 }
 
-func (b byValueClient) MkdirTemp(dir, pattern string) (string, error) { return b.m.MkdirTemp(dir, pattern) }
+func (b byValueClient) MkdirTemp(dir, pattern string) (string, error) {
+	return b.m.MkdirTemp(dir, pattern)
+}
 func (b byValueClient) ReadFile(name string) ([]byte, error)          { return b.m.ReadFile(name) }
 func (b byValueClient) ReadDir(dirname string) ([]os.DirEntry, error) { return b.m.ReadDir(dirname) }
 func (b byValueClient) WriteFile(name string, c []byte) error         { return b.m.WriteFile(name, c) }
